@@ -327,3 +327,55 @@ def attr_chains_in(e):
 
     rec(e)
     return out
+
+
+# ------------------------------------------------------------------ property / getter inlining
+class _SelfSubst(ast.NodeTransformer):
+    def __init__(self, selfname, repl):
+        self.selfname = selfname
+        self.repl = repl
+
+    def visit_Name(self, node):
+        if node.id == self.selfname and isinstance(node.ctx, ast.Load):
+            return copy.deepcopy(self.repl)
+        return node
+
+
+def property_body(m):
+    """Return expression of a single-``return`` property/getter (docstring and nothing else allowed),
+    or None."""
+    body = [s for s in m.node.body if not (isinstance(s, ast.Expr) and isinstance(s.value, ast.Constant))]
+    if len(body) == 1 and isinstance(body[0], ast.Return) and body[0].value is not None:
+        return body[0].value
+    return None
+
+
+def inline_properties(expr, fi, tenv, depth=4, keep=()):
+    """Substitute reads of single-return properties (through the typed receiver) by their bodies.
+
+    ``keep``: set of (class short name, property) that must stay symbolic."""
+    project = tenv.p
+
+    class T(ast.NodeTransformer):
+        def __init__(self, d):
+            self.d = d
+
+        def visit_Attribute(self, node):
+            node = self.generic_visit(node)
+            if self.d <= 0 or not isinstance(node.ctx, ast.Load):
+                return node
+            bt = tenv.expr_type(node.value, fi)
+            if bt is None or bt.cls is None or bt.kind != "obj":
+                return node
+            m = project.lookup_method(bt.cls, node.attr)
+            if m is None or m.kind != "property":
+                return node
+            if (m.cls.name, node.attr) in keep:
+                return node
+            body = property_body(m)
+            if body is None or not m.params:
+                return node
+            sub = _SelfSubst(m.params[0], node.value).visit(copy.deepcopy(body))
+            return T(self.d - 1).visit(sub)
+
+    return T(depth).visit(copy.deepcopy(expr))
